@@ -705,8 +705,18 @@ class Tr:
         if not m:
             die("context.rs: default_memoize_register not found")
         b = s.find("{", m.end())
-        if norm(s[b + 1:match_brace(s, b)]) != self.EXPECTED_FREE["default_memoize_register"]:
-            die("context.rs: default_memoize_register changed: %r" % norm(s[b + 1:match_brace(s, b)]))
+        # the comparison inside the `position` closure is translated (ct_memo_cmp); the rest of the body is pinned
+        body = norm(s[b + 1:match_brace(s, b)])
+        mm = re.fullmatch(r"let idx = registers\s?\.iter\(\)\s?\.position\(\|val\| (.+?)\)\?; Some\(registers\[idx\]\)", body)
+        if not mm:
+            die("context.rs: default_memoize_register changed: %r" % body)
+        pred = mm.group(1).replace(" ", "")
+        if pred in ("*val==reg", "reg==*val", "val==&reg", "&reg==val"):
+            self.memo_cmp = 0
+        elif pred in ("val.eq_ignore_ascii_case(reg)", "reg.eq_ignore_ascii_case(val)", "(*val).eq_ignore_ascii_case(reg)"):
+            self.memo_cmp = 1
+        else:
+            die("context.rs: default_memoize_register compares names with %r, which C18/Model.v memo_eqb does not model" % mm.group(1))
         m = re.search(r"impl<T> Iterator for CpuRegisters<'_, T>", s)
         if not m:
             die("context.rs: Iterator impl of CpuRegisters not found")
@@ -839,6 +849,7 @@ class Tr:
             t["variant"] = v
             t["sp_acc"] = disp[v]["sp_acc"]
             t["ip_acc"] = disp[v]["ip_acc"]
+            t["memo_cmp"] = self.memo_cmp
             t["fields"] = [(f, wl[0], -1 if wl[1] is None else wl[1]) for f, wl in self.structs[cname].items() if wl is not None]
             t["gpr"] = tables[disp[v]["gpr_of"]]["registers"]
             t["gpr_of"] = disp[v]["gpr_of"]
@@ -967,6 +978,7 @@ def emit(tables):
         o.append("  ct_get := %s;" % coq_list("(%s, %s)" % (coq_list(coq_str(p) for p in ps), coq_loc(l)) for ps, l in t["get"]))
         o.append("  ct_set := %s;" % coq_list("(%s, %s)" % (coq_list(coq_str(p) for p in ps), coq_loc(l)) for ps, l in t["set"]))
         o.append("  ct_memo := %s;" % coq_list("(%s, %s)" % (coq_list(coq_str(p) for p in ps), coq_str(c)) for ps, c in t["memo"]))
+        o.append("  ct_memo_cmp := %d;" % t["memo_cmp"])
         o.append("  ct_groups := %s;" % coq_list("(%s, %s)" % (coq_list(coq_str(p) for p in ps), coq_list(coq_str(a) for a in al)) for ps, al in t["groups"]))
         o.append("  ct_sp_name := %s;" % coq_str(t["sp_name"]))
         o.append("  ct_ip_name := %s;" % coq_str(t["ip_name"]))
